@@ -64,7 +64,8 @@ def _mc(ctx):
                 ('svc', dict(owners=4, hosts=2), False),
                 ('gcrule', dict(owners=3, rules=3), True), ('gcvip', dict(owners=3, hosts=2), True),
                 ('gcspec', dict(owners=3, specs=3), True), ('gcvip', dict(owners=4, hosts=2), False)]
-    need = dict(vip=['VipGC', 'VipFree', 'VipAlloc', 'VipAllocPicked', 'OwnerDisappears'], rule=['RuleGC', 'RuleCreate', 'RuleUnlink'], spec=['SpecGC', 'SpecCreate', 'SpecUnlink', 'SpecUnlinkAll'],
+    need = dict(vip=['VipGC', 'VipFree', 'VipAlloc', 'VipAllocPicked', 'OwnerDisappears', 'Initialize'], rule=['RuleGC', 'RuleCreate', 'RuleUnlink', 'Initialize'],
+                spec=['SpecGC', 'SpecCreate', 'SpecUnlink', 'SpecUnlinkAll', 'Initialize'],
                 svc=['Synchronize', 'SvcStart', 'OnDelete', 'OnCreate', 'Import'], mgr=[],
                 gcrule=['GcBegin', 'GcList', 'GcVisit', 'GcEnd', 'RuleCreate', 'OwnerAppears'],
                 gcvip=['GcBegin', 'GcList', 'GcVisit', 'GcEnd', 'VipAlloc', 'OwnerAppears'],
@@ -131,11 +132,15 @@ def judge(ctx, traces, verdicts):
         raise tlc.MachineryError('trace spec judged %d of %d lines' % (len(verdicts), total))
     by_tid = {t['tid']: t for t in traces}
     violations, nontrivial, flags = [], set(), collections.Counter()
+    ext_failed = collections.Counter()
     for v in verdicts:
         t = by_tid[v['tid']]
         fails = set(v['fail'])
-        if 'drift.step' in fails:
+        if 'drift.step' in fails or any(f.startswith('ext.') for f in fails):
             ctx.drift += 1
+        for f in fails:
+            if f.startswith('ext.'):
+                ext_failed[f] += 1
         flags.update(v['ex'])
         if NONTRIVIAL & set(v['ex']):
             nontrivial.add(core.hist_hash(t['history']))
@@ -164,7 +169,15 @@ def judge(ctx, traces, verdicts):
         distinct_nontrivial=len(nontrivial), rule=RULE, samples=samples,
         traces_validated=len(traces), assumptions=ASSUMPTIONS,
         extra=dict(trace_sources=dict(collections.Counter(t.get('src') for t in traces)),
-                   exercised=dict(flags)))
+                   exercised=dict(flags),
+                   extensions=dict(
+                       what='node start: VipMgr/RuleMgr/EndpointsMgr.initialize as Initialize(db) at arbitrary '
+                            'points of a history (ext.init.removed, ext.init.kept); model-checked in the '
+                            'vip/rule/spec focuses through the same monitor',
+                       clauses=['ext.init.removed', 'ext.init.kept'],
+                       evaluations=flags.get('ext.init', 0),
+                       on_nonempty_database=flags.get('ext.init.nonempty', 0),
+                       failed=dict(ext_failed))))
 
 
 def run(ctx):
@@ -204,7 +217,8 @@ def selftest(ctx):
          ('VipFree', ['o2', '192.168.0.1']), ('OwnerDisappears', ['o2']), ('VipGC', []),
          ('RuleCreate', ['o1', 'r1']), ('RuleCreate', ['o2', 'r1']),
          # lines 10..14: GcBegin, GcRun, OwnerAppears(o3), RuleCreate(o3,r2), GcEnd
-         ('GcPass', ['rules'], {'1': [['OwnerAppears', ['o3']], ['RuleCreate', ['o3', 'r2']]]})]
+         ('GcPass', ['rules'], {'1': [['OwnerAppears', ['o3']], ['RuleCreate', ['o3', 'r2']]]}),
+         ('Initialize', ['rules'])]      # line 15
     jtmp, old = _tmp_env()
     try:
         good = od.replay(h)
@@ -232,7 +246,11 @@ def selftest(ctx):
         def c_gc_race(line):    # the pass took the rule of the owner that appeared meanwhile
             line['post']['rules'] = [p for p in line['post']['rules'] if p[1] != 'o3']
         assert good[14]['ev'] == 'GcEnd', [x['ev'] for x in good]
-        cases = [('gc-takes-newcomer', 14, c_gc_race, 'C14.gcExact'),
+        def c_init_left(line):  # node start left a rule file behind
+            line['post']['rules'] = [['r2', 'o3']]
+        assert good[15]['ev'] == 'Initialize'
+        cases = [('init-leaves-rule', 15, c_init_left, 'ext.init.removed'),
+                 ('gc-takes-newcomer', 14, c_gc_race, 'C14.gcExact'),
                  ('foreign-free', 5, c_free, 'C14.ownerOnly'), ('repoint', 4, c_repoint, 'C14.oneOwner'),
                  ('outside', 4, c_cidr, 'C14.inCidr'), ('gc-keeps-orphan', 7, c_gc_keep, 'C14.gcExact'),
                  ('gc-takes-live', 7, c_gc_all, 'C14.gcExact'), ('rule-overwrite', 9, c_rule, 'C14.oneOwner')]
